@@ -99,6 +99,8 @@ def run_prop(prop, tier='quick', seed=0, extra_obs=None, functions=None, extra_a
     if not ms.get('canary_ok', False):
         R.checker_errors.append('canary failed: the engine did not refute a deliberately false contract (or found no exception path)')
     hs = histcheck.sweep(tier)
+    for tk, kind, why in hs.get('failed_shards', []):
+        R.add(report.Ob(f'{prop}/bounded-shard/{tk}', 'undecided', level='bounded', detail=f'a shard of the bounded enumeration of {tk} did not finish ({kind}): {why}'))
     kh_all = json.load(open(os.path.join(VERIF, 'known_histories.json'))) if os.path.exists(os.path.join(VERIF, 'known_histories.json')) else {}
     kh = kh_all.get(prop, {})
     name_of = {t['tkey']: t['name'] for t in hs['types']}
